@@ -428,6 +428,9 @@ def run(prog, rep, tier):
              'read under the same test')
     if check_conditional_attrs(prog, rep) < 4:
         raise AnalysisError('HEFF-conditional-attr: LHeff / RHeff of OneSiteH not found')
+    rep.rule('HOOKS-final-canonical', 're-measured norm errors reach the final canonical_form() test')
+    if check_final_canonical(prog, rep) < 2:
+        raise AnalysisError('HOOKS-final-canonical: re-measurement of the norm error not found')
     if check_heff_adjoint(prog, rep) < 2:
         raise AnalysisError('HEFF-adjoint: adjoint() of OneSiteH / TwoSiteH not found')
     if check_bond_coherence(prog, rep) < 2:
@@ -678,4 +681,55 @@ def check_conditional_attrs(prog, rep):
                                       'without that test: AttributeError in the other '
                                       'configuration' % (attr, need[0], need[1], ci.name, name),
                                       x.lineno)
+    return n
+
+
+# ------------------------------------------------------------------ HOOKS-final-canonical
+def check_final_canonical(prog, rep):
+    """HOOKS-final-canonical: DMRGEngine._canonicalize re-measures the norm error while sweeping
+    the environments and finally calls psi.canonical_form() if the error is above norm_tol_final.
+    Every (re)computation of the norm error must still reach that final test: on the CFG, no path
+    from an assignment of the error to the end of the function avoids the test that guards
+    canonical_form()."""
+    from ..cfg import CFG
+    m = prog.module(DMRG)
+    f = m.functions.get('DMRGEngine._canonicalize')
+    if f is None:
+        raise AnalysisError('DMRGEngine._canonicalize not found')
+    cfg = CFG(f)
+    finals = [s for s in ast.walk(f) if isinstance(s, ast.If) and any(
+        isinstance(c, ast.Call) and isinstance(c.func, ast.Attribute) and
+        c.func.attr == 'canonical_form' for b in s.body for c in ast.walk(b))]
+    if len(finals) != 1:
+        raise AnalysisError('_canonicalize: the guarded call of canonical_form() was not found')
+    final = finals[0]
+    errs = {n_ for n_ in names_in(final.test)}
+    assigns = [s for s in stmts_of(f) if isinstance(s, ast.Assign) and any(
+        isinstance(t, ast.Name) and t.id in errs for t in s.targets) and any(
+            isinstance(c, ast.Call) and 'norm_test' in unparse(c) for c in ast.walk(s.value))]
+    if not assigns:
+        raise AnalysisError('_canonicalize: computation of the norm error not found')
+
+    def is_final(n):
+        return n.stmt is final
+    n = 0
+    for a in assigns:
+        n += 1
+        starts = []
+        for nd in cfg.nodes_of(a):
+            starts.extend(nd.succ)
+        r = cfg.reachable_from(starts, blocked=is_final)
+        # early returns for an error that is already small are part of the protocol: only paths
+        # that fall off the end (or return) WITHOUT having passed the final test count when they
+        # come from a re-measurement inside a loop / branch after the early-return guard
+        escaped = cfg.exit in r and a is not assigns[0]
+        rep.instance('HOOKS-final-canonical', {'assignment': key_text(a)[:60],
+                                               'reaches_final_test_on_all_paths': not escaped})
+        if escaped:
+            rep.violation('HOOKS-final-canonical', m, 'DMRGEngine._canonicalize',
+                          'final-test-skipped',
+                          'after `%s` a path leads to the end of _canonicalize without the test '
+                          '`%s` that guards psi.canonical_form(): a poorly converged infinite '
+                          'run returns a non-canonical state' %
+                          (key_text(a)[:60], unparse(final.test)), a.lineno)
     return n
